@@ -439,6 +439,28 @@ func GenPKG(w *World, maxEdits int, opts ...string) *Scenario {
 		sc.UserOps = append(sc.UserOps, UserOp{Label: fmt.Sprintf("delete %s (%s)", key.Name, prop), Do: func(w *World) {
 			_ = w.TP("user", w.Mgmt).Delete(key, prop)
 		}})
+		if has("recreate") && s.Chance(2, 3, "recreate") {
+			// the same package again before everything of the old one has been collected
+			var again store.Obj
+			if o, ok := w.Mgmt.Objs[key]; ok {
+				again = store.Obj{"apiVersion": o["apiVersion"], "kind": o["kind"], "metadata": map[string]any{"name": key.Name}, "spec": store.Copy(o)["spec"]}
+				if key.Namespace != "" {
+					store.Meta(again)["namespace"] = key.Namespace
+				}
+				if a := store.Annotations(o); len(a) > 0 {
+					for k, v := range a {
+						setAnnotation(again, k, v)
+					}
+				}
+			}
+			if again != nil {
+				sc.UserOps = append(sc.UserOps, UserOp{Label: "re-create " + key.Name, Do: func(w *World) {
+					if _, exists := w.Mgmt.Objs[key]; !exists {
+						_, _ = w.TP("user", w.Mgmt).Create(store.Copy(again))
+					}
+				}})
+			}
+		}
 	}
 	wl := &WorkloadAgent{Cluster: "mgmt", Policy: map[store.Key]string{}, Budget: s.Intn(4, "workload-budget")}
 	w.AddAgent(wl)
